@@ -11,13 +11,17 @@ VARIABLE hist
 SetSeq(S) == SetToSeq(S)
 GenInit == \/ \E ver \in FortVers, art \in {"lock", "def"} :
                 /\ InitWith(FortCfg(ver, art))
-                /\ hist = <<[ev |-> "Cfg", src |-> "fort", art |-> art, ver |-> VerNames[ver + 1], n |-> 0, t |-> 0, flaw |-> "none"]>>
+                /\ hist = <<[ev |-> "Cfg", src |-> "fort", art |-> art, ver |-> VerNames[ver + 1], n |-> 0, t |-> 0, flaw |-> "none", msig |-> 0]>>
            \/ \E ver \in FortVers, art \in {"lock", "def"}, f \in Flaws :
                 /\ FlawApplies(f, ver, art) /\ InitWith(FlawedCfg(ver, art, f))
-                /\ hist = <<[ev |-> "Cfg", src |-> "fort", art |-> art, ver |-> VerNames[ver + 1], n |-> 0, t |-> 0, flaw |-> f]>>
+                /\ hist = <<[ev |-> "Cfg", src |-> "fort", art |-> art, ver |-> VerNames[ver + 1], n |-> 0, t |-> 0, flaw |-> f, msig |-> 0]>>
+           \/ \E art \in {"lock", "def"}, k \in {2, 3} :
+                /\ Latest \in FortVers /\ InitWith(MultiSigCfg(art, k))
+                /\ hist = <<[ev |-> "Cfg", src |-> "fort", art |-> art, ver |-> VerNames[Latest + 1], n |-> 0, t |-> 0,
+                             flaw |-> "none", msig |-> k]>>
            \/ \E n \in 3..MaxN : \E t \in {0} \cup 2..n :
                 /\ InitWith(CreateCfg(n, t, <<>>, FALSE))
-                /\ hist = <<[ev |-> "Cfg", src |-> "create", art |-> "lock", ver |-> VerNames[Latest + 1], n |-> n, t |-> t, flaw |-> "none"]>>
+                /\ hist = <<[ev |-> "Cfg", src |-> "create", art |-> "lock", ver |-> VerNames[Latest + 1], n |-> n, t |-> t, flaw |-> "none", msig |-> 0]>>
 Fresh == phase = "verified" /\ cur.state = "pristine" /\ obs.kind = "none"
 SibOf(r) == IF r.sib \in {"", "self"} THEN "" ELSE FullPath([r EXCEPT !.p = r.sib], cfg.art)
 Sels(r) == IF r.sib = "self" THEN {"first", "last"} ELSE {"first"}
@@ -25,17 +29,19 @@ OverOf(kind) == SetSeq({FullPath(r, cfg.art) : r \in {x \in Rows : x.ty = (IF ki
 Size(S) == Cardinality(S)
 \* node subsets worth recombining: exactly the threshold, one less, all nodes
 CombineSets == {S \in SUBSET (1..cfg.n) : Size(S) \in {ExpThreshold(cfg) - 1, ExpThreshold(cfg), cfg.n}}
+\* multisig configurations: the cases are the alterations of the (multi-)signature leaves
+GenRows == IF HashOnly THEN {r \in Rows : r.p \in MultiSigLeaves} ELSE Rows
 GenNext ==
   \/ Create /\ hist' = Append(hist, [ev |-> "Create"])
   \/ Load(CanonView(cfg)) /\ hist' = Append(hist, [ev |-> "Load", node |-> 0])
   \/ Verify /\ hist' = Append(hist, [ev |-> "Verify"])
   \/ VerifyFlawed /\ verdict = "none" /\ hist' = Append(hist, [ev |-> "Verify"])
   \/ /\ Fresh
-     /\ \/ \E r \in Rows : \E kind \in KindsOf(r) \ {"ver"} : \E sel \in Sels(r) :
+     /\ \/ \E r \in GenRows : \E kind \in (KindsOf(r) \ {"ver"}) \cup (IF HashOnly THEN PosKinds ELSE {}) : \E sel \in Sels(r) :
              /\ Tamper(FullPath(r, cfg.art), kind, TRUE)
              /\ hist' = Append(hist, [ev |-> "Tamper", leaf |-> FullPath(r, cfg.art), ty |-> r.ty, kind |-> kind,
                                       sel |-> sel, sib |-> SibOf(r), to |-> ""])
-        \/ \E r \in Rows : \E to \in VerSiblings(V) :
+        \/ \E r \in GenRows : \E to \in VerSiblings(V) :
              /\ "ver" \in KindsOf(r) /\ Tamper(FullPath(r, cfg.art), "ver", TRUE)
              /\ hist' = Append(hist, [ev |-> "Tamper", leaf |-> FullPath(r, cfg.art), ty |-> r.ty, kind |-> "ver",
                                       sel |-> "first", sib |-> "", to |-> VerNames[to + 1]])
